@@ -69,7 +69,7 @@ var harness = &simcore.Harness{
 		"hook H8 (blockchain/v0/pool_verif.go): the requester-spawning loop sleeps 2ms when idle instead of busy-spinning",
 	},
 	Assumptions: []string{
-		"at most 2/3 of the voting power of any height signs a foreign block that would pass validation; the only thing a larger coalition (all keys) signs is a block that is invalid against the state (behaviour byz_invalid/byz_commit), which the node must still refuse",
+		"at most 2/3 of the voting power of any height signs a foreign block that would pass validation; the only thing a larger coalition (all keys) signs is a block that is invalid against the state (behaviour byz_invalid/byz_commit), which the node must still refuse; validators may have signed genuine precommits for nil at any height/round (behaviours nil_flip, nil_fab/nil_carrier), which never count as power for a block",
 		"multi-eligible-peer runs depend on Go map iteration order inside BlockPool; a violation found there is reported only if an immediate in-process re-run of the same trace shows it again (otherwise counted as probe.unreproduced)",
 		"a switch to consensus with the store at (highest advertised height - 2) counts as having reached the tip: IsCaughtUp needs block H+1 to verify H, and the last verified block may still be unprocessed when the 1s ticker fires",
 	},
@@ -81,7 +81,7 @@ const chainLen = 60 // heights generated per canonical chain
 
 var lieKinds = []string{"alt", "hdr", "pad_after", "pad_nil", "pad_before", "trunc", "extend", "reorder",
 	"wrong_hash", "wrong_psh", "wrong_round", "wrong_height", "coal_other", "subset_ok", "subset_low",
-	"inconsistent", "garbage", "other_height", "byz_invalid"}
+	"inconsistent", "garbage", "other_height", "byz_invalid", "nil_flip", "nil_fab"}
 
 func genConfig(rng *simcore.RNG, env *simcore.Env) simcore.Op {
 	c := simcore.Op{}
@@ -451,8 +451,71 @@ func (c *canon) mutateCommit(h int64, kind string, x int) *types.Commit {
 		}
 	case "inconsistent":
 		garbage(len(sigs)-1, types.BlockIDFlagCommit)
+	case "nil_flip":
+		// the right block id, but for-block slots are replaced by GENUINE nil precommits of the
+		// same validators (their sign-bytes do not mention any block) until the power that
+		// signed FOR the block is at most 2/3; every signature in the commit verifies
+		var forP int64
+		for i, sg := range sigs {
+			if sg.BlockIDFlag == types.BlockIDFlagCommit {
+				forP += vals.Validators[i].VotingPower
+			}
+		}
+		for _, i := range r.Perm(len(sigs)) {
+			switch sigs[i].BlockIDFlag {
+			case types.BlockIDFlagCommit:
+				if 3*forP > 2*total {
+					forP -= vals.Validators[i].VotingPower
+					sigs[i] = c.signNil(vals, i, height, round, ts)
+				}
+			case types.BlockIDFlagAbsent:
+				if x%2 == 0 {
+					sigs[i] = c.signNil(vals, i, height, round, ts)
+				}
+			}
+		}
 	}
 	return types.NewCommit(height, round, bid, sigs)
+}
+
+// signNil is validator i's genuine precommit for nil at (height, round).
+func (c *canon) signNil(vals *types.ValidatorSet, i int, height int64, round int32, ts time.Time) types.CommitSig {
+	v := vals.Validators[i]
+	vote := &types.Vote{Type: tmproto.PrecommitType, Height: height, Round: round,
+		Timestamp: ts.Add(time.Duration(i) * time.Millisecond), ValidatorAddress: v.Address, ValidatorIndex: int32(i)}
+	sig, err := c.ch.Keys[string(v.Address)].Sign(types.VoteSignBytes(c.chainID, vote.ToProto()))
+	if err != nil {
+		panic(err)
+	}
+	return types.CommitSig{BlockIDFlag: types.BlockIDFlagNil, ValidatorAddress: v.Address, Timestamp: vote.Timestamp, Signature: sig}
+}
+
+// nilCommit is a commit naming bid at height h in which every validator's slot verifies but
+// at most 2/3 of the power (none when x is even) signed FOR bid; the rest are genuine nil precommits.
+func (c *canon) nilCommit(h int64, bid types.BlockID, x int) *types.Commit {
+	vals := c.vals(h)
+	round := c.ch.Commits[h].Round
+	ts := c.ch.Blocks[h].Time.Add(time.Second)
+	var total, forP int64
+	for _, v := range vals.Validators {
+		total += v.VotingPower
+	}
+	sigs := make([]types.CommitSig, len(vals.Validators))
+	for i, v := range vals.Validators {
+		if x%2 == 1 && 3*(forP+v.VotingPower) <= 2*total {
+			forP += v.VotingPower
+			vote := &types.Vote{Type: tmproto.PrecommitType, Height: h, Round: round, BlockID: bid,
+				Timestamp: ts.Add(time.Duration(i) * time.Millisecond), ValidatorAddress: v.Address, ValidatorIndex: int32(i)}
+			sig, err := c.ch.Keys[string(v.Address)].Sign(types.VoteSignBytes(c.chainID, vote.ToProto()))
+			if err != nil {
+				panic(err)
+			}
+			sigs[i] = types.CommitSig{BlockIDFlag: types.BlockIDFlagCommit, ValidatorAddress: v.Address, Timestamp: vote.Timestamp, Signature: sig}
+			continue
+		}
+		sigs[i] = c.signNil(vals, i, h, round, ts)
+	}
+	return types.NewCommit(h, round, bid, sigs)
 }
 
 // byzInvalid is a block for height h that does not pass validation against the state
@@ -517,6 +580,24 @@ func (c *canon) forge(h int64, kind string, x int) *types.Block {
 		b.LastCommit = nc
 		b.LastCommitHash = nc.Hash()
 		b.LastBlockID = xid
+		return b
+	}
+	if kind == "nil_fab" {
+		// a fabricated block that passes validation against the state (only its transactions
+		// differ); nobody signed for it, see "nil_carrier"
+		return c.forge(h, "alt", 0)
+	}
+	if kind == "nil_carrier" {
+		if h == c.init {
+			return c.ch.Blocks[h]
+		}
+		f := c.forge(h-1, "alt", 0)
+		fid := types.BlockID{Hash: f.Hash(), PartSetHeader: f.MakePartSet(types.BlockPartSizeBytes).Header()}
+		b := c.cloneBlock(h)
+		nc := c.nilCommit(h-1, fid, x)
+		b.LastCommit = nc
+		b.LastCommitHash = nc.Hash()
+		b.LastBlockID = fid
 		return b
 	}
 	b := c.cloneBlock(h)
@@ -1302,7 +1383,7 @@ func (s *sim) tableAt(h int64, att int, second bool) (string, int) {
 		return "honest", x
 	}
 	if h == s.n && att == 0 && r.Intn(100) < s.cfg.Int("tiplie") {
-		return []string{"pad_after", "pad_nil", "subset_ok"}[r.Intn(3)], x
+		return []string{"pad_after", "pad_nil", "subset_ok", "nil_flip"}[r.Intn(4)], x
 	}
 	if r.Intn(100) < s.cfg.Int("lie") {
 		kinds := s.cfg.Strs("kinds")
@@ -1312,8 +1393,11 @@ func (s *sim) tableAt(h int64, att int, second bool) (string, int) {
 	}
 	// the answer for the height above an invalid block signed by everybody carries that commit
 	if !second && h > s.init {
-		if k, _ := s.tableAt(h-1, att, true); k == "byz_invalid" {
+		switch k, _ := s.tableAt(h-1, att, true); k {
+		case "byz_invalid":
 			return "byz_commit", x
+		case "nil_fab":
+			return "nil_carrier", x
 		}
 	}
 	return "honest", x
